@@ -3,6 +3,7 @@ package main
 // Verification units: one function (or one function x one source kind) verified against its contract.
 
 import (
+	"go/parser"
 	"fmt"
 	"go/ast"
 	"go/token"
@@ -394,8 +395,21 @@ func (u *Unit) checkPost(o Outcome) {
 		sc.post = true
 		t, terr := u.trySpec(cl, o.env, &sc)
 		if terr != "" {
-			// the clause cannot even be stated on this path (e.g. it names the result of a call that did not happen)
+			// the clause cannot even be stated on this path (e.g. it names the result of a call that did not happen): for an
+			// implication whose premise can be stated, the premise must then be false on this path; otherwise the clause fails
 			t = False
+			if antes, ok := impPremise(cl, u.Prog.Contracts); ok {
+				// the conjuncts of the premise that can be stated on this path must not all hold
+				var parts []Term
+				for _, a := range antes {
+					if at, aerr := u.trySpec(a, o.env, &sc); aerr == "" {
+						parts = append(parts, at)
+					}
+				}
+				if len(parts) > 0 {
+					t = Not(And(parts...))
+				}
+			}
 			cl.Text += "   [not expressible on this path: " + terr + "]"
 		}
 		pos := o.pos
@@ -631,4 +645,38 @@ func (u *Unit) trySpecTerm(cl Clause, env *Env, sc *specCtx) (t Term, err string
 		}
 	}()
 	return u.specTermCtx(cl, env, sc), ""
+}
+
+// the conjuncts of the premise of a clause of the form imp(A1 && A2 && ..., B) (after macro expansion), as clauses of their own
+func impPremise(cl Clause, cs *Contracts) ([]Clause, bool) {
+	if !cl.Expanded {
+		cl.Text = rewriteImplies(cs.Expand(cl.Text))
+		cl.Expanded = true
+	}
+	e, err := parser.ParseExpr(cl.Text)
+	if err != nil {
+		return nil, false
+	}
+	call, ok := e.(*ast.CallExpr)
+	if !ok || len(call.Args) != 2 {
+		return nil, false
+	}
+	if id, ok := call.Fun.(*ast.Ident); !ok || id.Name != "imp" {
+		return nil, false
+	}
+	var out []Clause
+	var walk func(x ast.Expr)
+	walk = func(x ast.Expr) {
+		x = unparen(x)
+		if b, ok := x.(*ast.BinaryExpr); ok && b.Op == token.LAND {
+			walk(b.X)
+			walk(b.Y)
+			return
+		}
+		a := cl
+		a.Text = nodeString(token.NewFileSet(), x)
+		out = append(out, a)
+	}
+	walk(call.Args[0])
+	return out, true
 }
